@@ -201,6 +201,37 @@ func ruleFLAGMASK1(c *Ctx) {
 		}
 	}
 	c.Floor("blocks guarded by a multi-flag Has mask", n, 4)
+	// presence is only asked of things that have no value of their own: outside the option plumbing,
+	// Has is applied to non-boolean flags, named group masks or inline multi-flag pre-checks — never to
+	// one boolean option (`Has(X)` is also true for X(false), e.g. after DefaultOptionsV2)
+	nb := ft.Named["NonBooleanFlags"]
+	nHas := 0
+	for _, f := range p.FuncsIn("json", "jsontext", "v1") {
+		if f.Body() == nil {
+			continue
+		}
+		info := f.Info()
+		k := 0
+		InspectNoLit(f.Body(), func(nd ast.Node) bool {
+			call, ok := nd.(*ast.CallExpr)
+			if !ok {
+				return true
+			}
+			m, _, v, isFlag := FlagCall(info, call)
+			if !isFlag || m != "Has" {
+				return true
+			}
+			nHas++
+			mask := v &^ 1
+			single := mask != 0 && mask&(mask-1) == 0
+			if single && mask&nb == 0 {
+				k++
+				c.Violation(fmt.Sprintf("has-on-boolean-option:%s#%d", f.Name, k), call.Pos(), "Flags.Has("+ft.Names(mask)+") asks whether the boolean option was specified, not whether it is on: it is also true for an explicit false (and after DefaultOptionsV2), use Get")
+			}
+			return true
+		})
+	}
+	c.Floor("Flags.Has calls outside the option plumbing", nHas, 20)
 	// sibling closures of one factory test the same masks
 	for decl, uses := range byDecl {
 		var m, u []maskUse
